@@ -142,7 +142,8 @@ def guard(fn, names, args):
   concrete = realize(args)
   with native():
     concrete = dict(zip(names, concrete))
-    if len(Stats.fails) < 5:
+    plain = all(type(v) in (int, bool, str) for v in concrete.values())
+    if plain and len(Stats.fails) < 5 and concrete not in Stats.fails:
       Stats.fails.append(concrete)
     if err and len(Stats.errors) < 5:
       Stats.errors.append(err)
